@@ -62,7 +62,9 @@ def prepare_db(parser, folder, state, texts, rng):
     if state in ("absent", FOLDER_ABSENT):
         return db
     other = "model Seed%d Real x; equation x = 1; end Seed%d;" % (rng.randint(0, 10 ** 6), rng.randint(0, 10 ** 6))
-    if state == "existing-with-entry" and rng.random() < 0.5:
+    first = state.endswith(":entry-first") or (state == "existing-with-entry" and rng.random() < 0.5)
+    state = state.split(":")[0]
+    if state == "existing-with-entry" and first:
         parser.parse(texts[0], model_cache_folder=Path(folder))      # the entry is the first row of the table
         parser.parse(other, model_cache_folder=Path(folder))
     else:
@@ -273,7 +275,7 @@ def controlled(ctx):
             for label, w in one_preemption_words(2, maxk):
                 jobs.append((state, 2, same, w, label, 0))
     # the second worker behaves like another process (own view of the folder => own check and prune) with expiration 0
-    for state in ("existing-with-entry", "existing-checked", "existing-unchecked"):
+    for state in ("existing-with-entry:entry-first", "existing-with-entry:entry-last", "existing-checked", "existing-unchecked"):
         for variant in ((3,) if ctx.quick() else (1, 2, 3)):
             for label, w in one_preemption_words(2, maxk):
                 jobs.append((state, 2, False, w, label + ":v%d" % variant, variant))
